@@ -138,7 +138,10 @@ LineSeq(n) ==
             <<Full("foo", "nope"), W(w)>>, <<W(w), Full("FOO", "nope")>>, <<Raw("![foo][nope]", "![foo][nope]"), W(w)>>,
             <<W(w), Raw("[a](<> \"t\")", "<a href=\"\" title=\"t\">a</a>")>>, <<Raw("[a](<>)", "<a href=\"\">a</a>"), W(w)>>,
             <<W(w), Raw("![i](<> 't')", "<img src=\"\" alt=\"i\" title=\"t\" />")>>,
-            <<W(w), Raw("<b>{TAB}raw</b>", "<b>{TAB}raw</b>"), W("x>{TAB}y")>> >>)          \* a tab directly behind ">" inside the text
+            <<W(w), Raw("<b>{TAB}raw</b>", "<b>{TAB}raw</b>"), W("x>{TAB}y")>>,
+            (* an escaped backslash directly before a construct is a backslash and does not disable the construct *)
+            <<W(w), Raw("\\\\~~gone~~", "\\<del>gone</del>"), Raw("\\\\`co`", "\\<code>co</code>")>>,
+            <<Raw("\\\\*em*", "\\<em>em</em>"), W(w)>> >>)          \* a tab directly behind ">" inside the text
 
 (* spelling variants: every action draws one index v and derives its free spelling choices from it, so that in
    simulation mode every kind of block is typed about equally often; over many documents all combinations occur *)
